@@ -13,6 +13,10 @@ from bvmon import contracts, harness, ref_v1, updates
 
 SIX = ["{pycalver}", "{semver}", "v{year}{month}{build}{release}", "{year}{month}{build}{release}",
        "v{year}{build}{release}", "{year}{build}{release}"]
+PEP_FORM = {"{pycalver}": "{year}{month}.{BID}{pep440_tag}", "{semver}": "{MAJOR}.{MINOR}.{PATCH}",
+            "v{year}{month}{build}{release}": "{year}{month}.{BID}{pep440_tag}",
+            "{year}{month}{build}{release}": "{year}{month}.{BID}{pep440_tag}",
+            "v{year}{build}{release}": "{year}.{BID}{pep440_tag}", "{year}{build}{release}": "{year}.{BID}{pep440_tag}"}
 COMBOS = ["{calver}{build}{release}", "{year}.{month}.{dom}", "{year}.{doy}", "v{year}.{doy}.{build_no}",
           "{year}q{quarter}.{build_no}", "{MAJOR}.{MINOR}.{PATCH}{release}", "v{yy}.{month}.{MINOR}",
           "{year}.{month}.{PATCH}{release}", "{year}{month}{dom}.{BID}", "v{MAJOR}.{MINOR}.{PATCH}",
@@ -241,9 +245,9 @@ def run_update(ctx, case, R):
     lines = ["intro text", f'__version__ = "{old}"', "middle"]
     pats = ['__version__ = "{version}"']
     if has_pep:
-        harness.bv()
-        import bumpver.version as bvv
-        lines.append(f"pip install pkg=={bvv.to_pep440(old)} ;")
+        # what the legacy engine itself writes for {pep440_version} (documented mapping of the six patterns)
+        pep_text = ref_v1.render(ref_v1.parse_pattern(PEP_FORM[p]), st)
+        lines.append(f"pip install pkg=={pep_text} ;")
         pats.append("pkg=={pep440_version} ;")
     cfg = (f'[bumpver]\ncurrent_version = "{old}"\nversion_pattern = "{p}"\n\n[bumpver.file_patterns]\n'
            f'"bumpver.toml" = [\'current_version = "{{version}}"\']\n"a.txt" = [\n'
@@ -271,6 +275,11 @@ def run_update(ctx, case, R):
         if res.exit_code != 0:
             if res.crash and not res.crash.startswith("OverflowError"):
                 ctx.violation(classify(p, "update_crash"), f"{args}: {res.crash[:300]}", case=case)
+            elif res.record_value("New Version: ") is not None:
+                # the version gate was passed: the project is consistent by construction, so the rewrite phase
+                # must find every configured occurrence (incl. the {pep440_version} one)
+                ctx.violation("other:legacy_update_fails_in_rewrite_phase", f"{args} on {p!r} {old!r}: "
+                              f"{res.errors()[-3:]}", case=case)
             ctx.counters["updates_refused"] += 1
             return
         new = res.record_value("New Version: ")
